@@ -183,6 +183,10 @@ class SpecEval:
     def cmp(self, op, a, b):
         # values coming from different states (old vs new) are compared by content,
         # each dereferenced in the state it was produced in: handled by Deref wrapper
+        if op in ("is", "is not") and (a.ty.kind == "none" or b.ty.kind == "none"):
+            # `x is None` is about the reference itself (a container reference may be None), not about its content
+            r = ops.is_none(b if a.ty.kind == "none" else a)
+            return r if op == "is" else z3.Not(r)
         a, b = self.deref(a), self.deref(b)
         return ops.compare(self.st, op, a, b, spec=True)
 
